@@ -264,6 +264,13 @@ def _receive_path(ctx, thorough):
                                                                                 ("adv", 4), ("heal",)]
                     items.append(("faults", sc2))
                     meta.append((kind + "+follower-during-reset", fr, dmg))
+        # the client is closed while it is still busy resetting the connection after a damaged frame, opened again later, and meets a
+        # damaged frame again in the new session: refused and recovered from exactly as the first time
+        for k in (0, 1, 2, 3, 5):
+            f0 = bytearray(frames[0]); f0[-1] ^= 0x01
+            items.append(("faults", [("net", "accept"), ("open",), ("adv", 8), ("peerbytes", bytes(f0).hex()), ("turn", k), ("close",), ("adv", 24), ("open",), ("adv", 8),
+                                     ("peerbytes", bytes(f0).hex()), ("adv", 8), ("heal",)]))
+            meta.append(("check-bytes, second session", frames[0], bytes(f0)))
         # special intermediate register values: the intact frame must be delivered, a check-byte-damaged one must not
         intact = []
         for reg, fr in _special_register_frames(gen, ctx.rng)[: (60 if thorough else 21)]:
